@@ -43,7 +43,14 @@ MANIFEST = dict(
          "undamped tensor (damping switched off by the code for a*u^3>=40) traceless and exactly "
          "(L2*delta_ij-3R_iR_j)/R^5, equal to it for a*u^3>=80, off-diagonal elements monotone in the damping "
          "parameter and bounded by the undamped ones; DipoleDipoleInteraction operator blocks symmetric and "
-         "consistent with the tensor.",
+         "consistent with the tensor. Mode H layer (SiteHist.tla): two long-lived site objects (StaticSite/PolarSite "
+         "inside their segments) are driven through TLC-generated call histories (setMultipole with every rank "
+         "pair old->new, setCharge, setPos, Translate, Rotate with the centre given by value or as the getPos() "
+         "REFERENCE of the site itself / of the partner, Reset, ApplyStaticField and ApplyInducedField in both "
+         "accumulator modes; all histories of 2 calls, sampled ones of 5); after every call getPos/rank/Q/getDipole "
+         "equal the abstract state, the energies among the objects and a probe equal those of FRESH sites built in "
+         "the abstract state, and V/V_noE equal the sum of the contributions since the last Reset, each evaluated "
+         "on a fresh source/target pair.",
     note="NOT covered: convergence of shrinking point-charge CLUSTER energies to the multipole energy (a limit; only "
          "the limit's exact value on integer-length lattice separations is checked; the spec's formula was compared "
          "once with explicit clusters in exact arithmetic by spec/multipole/crosscheck.py, outside the check); "
